@@ -64,6 +64,9 @@ MUTANTS = [
     ('rule filter syntax error', [(['rules', 0, 'filter'], '1 +')]),
     ('rule filter deep nesting', [(['rules', 0, 'filter'], '(' * 3000 + 'true' + ')' * 3000)]),
     ('rule filter tuple index', [(['rules', 0, 'filter'], '(1, 2).5 == 1')]),
+    ('rule filter function without arguments', [(['rules', 0, 'filter'], 'to_string() == "a"')]),
+    ('rule filter function with one argument too few', [(['rules', 0, 'filter'], 'cidr_match(request.target.host)')]),
+    ('rule filter function with one argument too many', [(['rules', 0, 'filter'], 'to_integer("1", 2) == 1')]),
     ('accessLog in missing dir', [(['accessLog'], {'path': '/nonexistent/dir/a.log', 'format': 'json'})]),
     ('accessLog script type error', [(['accessLog'], {'path': 'a.log', 'format': {'script': 'request.target.port'}})]),
     ('accessLog script ok', [(['accessLog'], {'path': 'a.log', 'format': {'script': '`${request.listener} ${request.target}`'}})]),
